@@ -8,7 +8,7 @@ USES_FACTS = False
 DRIVER = "shootmodel_rt"
 
 MANIFEST = dict(
-    text="Lean 4 theorems over a model of the retry loop (all n, all infinite outcome scripts): model = spec, bound n+1, stop at first acceptable, exhaustion returns the last response and error, trace = call (sleep call)*. Model tied to middleware/retry.go by running the real middleware in-process on every script of length n+1 over six outcome classes for n = 0..5 (exhaustive) plus timing and random legs. Every script is sent three times through ONE middleware instance (the model says the answers are equal: no state survives a request).",
+    text="Lean 4 theorems over a model of the retry loop (all n, all infinite outcome scripts): model = spec, bound n+1, stop at first acceptable, exhaustion returns the last response and error, trace = call (sleep call)*. Model tied to middleware/retry.go by running the real middleware in-process on every script of length n+1 over six outcome classes for n = 0..5 (exhaustive) plus timing and random legs. Every script is sent three times through ONE middleware instance (the model says the answers are equal: no state survives a request), the passes differing in the kind of the scripted transport errors (plain, net.Error timeouts, wrapped context sentinels) and in the state of the request's context (live, already cancelled, expiring during the first wait).",
     note="Lean kernel + standard axioms; the correspondence (harness cmd/rt + Lean driver) ties the model to the code; time.Sleep lower bound assumed.",
     technique="Lean 4 proof (induction over the loop) + exhaustive model/implementation correspondence",
     design="5/C20")
